@@ -16,7 +16,7 @@ pub fn meta() -> CheckMeta {
     CheckMeta {
         id: "C06",
         level: "fault_enumeration",
-        rule: "(1) builder sequences: alphabet of 18 builder calls (with_tolerance{+,0,-}, with_maximum_dt{0.25,0.5,0,-1}, with_minimum_dt{0.125,1.0,0,-0.5}, with_initial_time{0,10}, with_ending_time{0,10}, with_initial_conditions{[1.0],[-2.5]}, with_derivative); ALL sequences up to length 4 (quick) / 5 (thorough), each alone and with two completing suffixes, for all 7 builders on a static dimension, and all sequences up to length 3 on a dynamic dimension; every call's outcome is compared with a reference model of the contract, complete configurations must build and their first item on y'=0 must carry the initial condition set last and lie at the model's (dt_min+dt_max)/2 from t0 (Euler: the averaged dt). (2) faults: for every solver and problem a reference run counts N derivative calls, then for EVERY k = 1..N the derivative fails at call k with Boom(k): history must be Ok*, exactly one Err carrying Boom(k), then None on 5 further next() calls with no further derivative call; collect_vec must return that error. Non-trivial: a sequence containing an invalid value or a min/max pair in coupling order, and every distinct (solver, problem, k); distinct = hash of the sequence / fault point".into(),
+        rule: "(1) builder sequences: alphabet of 19 builder calls (with_tolerance{1e-3,1e-17,0,-}, with_maximum_dt{0.25,0.5,0,-1}, with_minimum_dt{0.125,1.0,0,-0.5}, with_initial_time{0,10}, with_ending_time{0,10}, with_initial_conditions{[1.0],[-2.5]}, with_derivative); ALL sequences up to length 4 (quick) / 5 (thorough), each alone and with two completing suffixes, for all 7 builders on a static dimension, and all sequences up to length 3 on a dynamic dimension; every call's outcome is compared with a reference model of the contract, complete configurations must build and their first item on y'=0 must carry the initial condition set last and lie at the model's (dt_min+dt_max)/2 from t0 (Euler: the averaged dt). (2) faults: for every solver and problem a reference run counts N derivative calls, then for EVERY k = 1..N the derivative fails at call k with Boom(k): history must be Ok*, exactly one Err carrying Boom(k), then None on 5 further next() calls with no further derivative call; collect_vec must return that error. Non-trivial: a sequence containing an invalid value or a min/max pair in coupling order, and every distinct (solver, problem, k); distinct = hash of the sequence / fault point".into(),
         assumptions: vec![
             "Euler::with_tolerance is documented 'unused, no-op': for a non-positive tolerance the model accepts Ok or Err(ToleranceOOB), never a panic".into(),
             "only the first yielded item of the y'=0 probe solve is inspected (gaps/end time are C01's statement, at-rest failures C05's)".into(),
@@ -39,8 +39,9 @@ enum Sym {
     Der,
 }
 
-const ALPHABET: [Sym; 18] = [
+const ALPHABET: [Sym; 19] = [
     Sym::Tol(1e-3),
+    Sym::Tol(1e-17),
     Sym::Tol(0.0),
     Sym::Tol(-1.0),
     Sym::Max(0.25),
@@ -425,7 +426,7 @@ fn enumerate(rep: &mut Report, solver: Solver, dynamic: bool, idx: &mut Vec<usiz
 
 fn fault_case(rep: &mut Report, solver: Solver, prob: &IvpProblem, cfg: &Cfg, mode: DimMode, stride: u64) {
     let sname = solver.name();
-    let base = Opts { budget: 2_000_000, max_items: 100_000, mode, extra_next: 5, ..Default::default() };
+    let base = Opts { budget: 2_000_000, max_items: 100_000, mode, extra_next: 5, collect_after: true, ..Default::default() };
     let reference = solve_real(solver, cfg, &prob.y0, prob, &base);
     rep.eval();
     let case0 = || J::obj().set("solver", sname).set("mode", format!("{:?}", mode)).set("cfg", cfg.to_json()).set("problem", prob.to_json());
@@ -437,6 +438,12 @@ fn fault_case(rep: &mut Report, solver: Solver, prob: &IvpProblem, cfg: &Cfg, mo
     if reference.extra_some > 0 || reference.extra_calls > 0 {
         rep.violation(&format!("fault/{}/items-after-normal-end", sname), case0(), format!("{} item(s) and {} derivative call(s) after the iterator returned None", reference.extra_some, reference.extra_calls));
         return;
+    }
+    if let Some((n_items, is_err, c)) = reference.collect_after {
+        if n_items > 0 || is_err || c > 0 {
+            rep.violation(&format!("fault/{}/collect-vec-after-normal-end", sname), case0(), format!("collect_vec() on the exhausted iterator returned {} item(s){} and called the derivative {} time(s)", n_items, if is_err { " / an error" } else { "" }, c));
+            return;
+        }
     }
     let n = reference.calls;
     rep.count(&format!("{}/reference_calls", sname), n as i64);
@@ -484,6 +491,19 @@ fn fault_case(rep: &mut Report, solver: Solver, prob: &IvpProblem, cfg: &Cfg, mo
                     format!("after the Err item: {} further item(s) from 5 next() calls, {} further derivative call(s); total calls {} (fault at {})", out.extra_some, out.extra_calls, out.calls, k),
                 );
                 ok = false;
+            }
+            if ok {
+                // mixed consumption: next() up to the Err item, then collect_vec() on the same iterator
+                if let Some((n_items, is_err, c)) = out.collect_after {
+                    if n_items > 0 || is_err || c > 0 {
+                        rep.violation(
+                            &format!("fault/{}/collect-vec-continues-after-error", sname),
+                            case(),
+                            format!("after the Err item was taken with next(), collect_vec() on the same iterator returned {} further item(s){} and called the derivative {} more time(s)", n_items, if is_err { " / another error" } else { "" }, c),
+                        );
+                        ok = false;
+                    }
+                }
             }
             if ok {
                 // the Ok prefix must be a prefix of the reference path (same problem, same arithmetic)
@@ -604,7 +624,7 @@ pub fn stages(ctx: &Ctx) -> Vec<Stage> {
 
 pub fn thresholds(ctx: &Ctx, rep: &Report) -> Vec<Threshold> {
     let mut t = vec![];
-    let per_builder = if ctx.tier == Tier::Quick { 300_000.0 } else { 5_000_000.0 };
+    let per_builder = if ctx.tier == Tier::Quick { 380_000.0 } else { 7_000_000.0 };
     for s in Solver::ALL {
         t.push(Threshold { what: format!("{}: builder sequences driven (static)", s.name()), required: per_builder, observed: rep.counter(&format!("{}/sequence_runs", s.name())) as f64 });
         t.push(Threshold { what: format!("{}: complete configurations whose first step was observed", s.name()), required: 100.0, observed: rep.counter(&format!("{}/first_step_observed", s.name())) as f64 });
